@@ -150,7 +150,8 @@ type c10Scenario struct {
 	ops              []cliOp
 }
 
-var c10SPNs = []string{"HTTP/host.test.gokrb5", "HTTP/other.test.gokrb5", "HTTP/svc.other.realm", "HTTP/svc.third.realm", "host/a.other.realm"}
+// principal names are case sensitive: "http/host…" is another service than "HTTP/host…"
+var c10SPNs = []string{"HTTP/host.test.gokrb5", "HTTP/other.test.gokrb5", "HTTP/svc.other.realm", "HTTP/svc.third.realm", "host/a.other.realm", "http/host.test.gokrb5"}
 
 func resolvedRealm(spn string) string {
 	if strings.HasSuffix(spn, ".other.realm") {
@@ -424,7 +425,8 @@ func TestC10(t *testing.T) {
 		pol := simPolicy{maxLife: life, requirePA: rng.Intn(2) == 0, sessionEt: []int32{18, 17, 23, 20}[rng.Intn(4)]}
 		conf := " ticket_lifetime = 24h\n"
 		name := "standard"
-		switch rng.Intn(3) {
+		renewCf := 72 * time.Hour
+		switch rng.Intn(4) {
 		case 0:
 			pol.maxRenew = 7 * 24 * time.Hour
 			conf += " renew_lifetime = 72h\n"
@@ -433,6 +435,12 @@ func TestC10(t *testing.T) {
 			pol.maxRenew = 2 * life
 			conf += " renew_lifetime = 72h\n"
 			name = "renewable-short"
+		case 2:
+			// a renewable lifetime below the requested ticket lifetime (the KDC caps the ticket's life lower still)
+			pol.maxRenew = 7 * 24 * time.Hour
+			conf += " renew_lifetime = 12h\n"
+			renewCf = 12 * time.Hour
+			name = "renewable-below-lifetime"
 		}
 		pol.defaultSalt = rng.Intn(2) == 0
 		if rng.Intn(2) == 0 {
@@ -441,7 +449,7 @@ func TestC10(t *testing.T) {
 		}
 		sc := c10Scenario{name: fmt.Sprintf("%s/life=%v/pa=%v/#%d", name, life, pol.requirePA, i), pol: pol, lifeCf: 24 * time.Hour, ops: genHistory(rng, life, 6+rng.Intn(10))}
 		if strings.Contains(conf, "renew_lifetime") {
-			sc.renewCf = 72 * time.Hour
+			sc.renewCf = renewCf
 		}
 		sc.fwd, sc.prox, sc.canon = rng.Intn(2) == 0, rng.Intn(3) == 0, rng.Intn(3) == 0
 		sc.conf = conf + c10ConfFlags(sc)
